@@ -215,7 +215,9 @@ fn encode<'t, T>(
                         }
 
                         let mut pattern = String::new();
-                        pattern.push('[');
+                        // Character classes are always case sensitive, regardless of any flags
+                        // that have been encoded for literals.
+                        pattern.push_str("(?-i)[");
                         if class.is_negated() {
                             pattern.push('^');
                             encode_class_archetypes(class, &mut pattern);
